@@ -118,14 +118,14 @@ Definition walk_value (rfn search : bool) (kp : list string) (sinit : list strin
   end.
 
 (* value under a FieldName-typed key; [top] tells the top-level site (which looks at len(keyPath)) *)
-Definition fieldname_value (rfn search : bool) (kp_here : list string) (k : string)
+Definition fieldname_value (rfn search : bool) (kp_here : list string) (sinit : list string) (slast : string)
            (keep_string : string -> bool) (v : json) : json :=
   if rfn then
     match v with
     | JStr s => if keep_string s then v else JStr (hn s)
     | JObj _ => rec (MP rfn kp_here search) v
     | JArr l => rec (MA "" rfn search (sel_of l) kp_here) v
-    | _ => scalar [] k v search false
+    | _ => scalar sinit slast v search false
     end
   else
     match v with
@@ -147,10 +147,10 @@ Definition sub_member (rfn search : bool) (nkp : list string) (k : string) (m : 
   let sub := oget m subk in
   let fallthrough :=
     let rk := if rfn && (match sub with None => true | Some MNil => true | _ => false end) then hn subk else subk in
-    (rk, walk_value rfn search (nkp ++ [subk]) [] k subv) in
+    (rk, walk_value rfn search (nkp ++ [subk]) nkp subk subv) in
   match sub with
   | Some (MT FieldName) =>
-      (subk, fieldname_value rfn search (nkp ++ [subk]) k (fun s => is_op_name s search) subv)
+      (subk, fieldname_value rfn search (nkp ++ [subk]) nkp subk (fun s => is_op_name s search) subv)
   | Some (MT Namespace) => (subk, if nss c then ns_value subv else subv)
   | Some (MT Exempt) => (subk, subv)
   | Some (MT OperatorArray) =>
@@ -176,7 +176,7 @@ Definition p_member (rfn : bool) (kp : list string) (search : bool) (k : string)
     end in
   match op with
   | Some (MT FieldName) =>
-      (rk, fieldname_value rfn search nkp k
+      (rk, fieldname_value rfn search nkp [] k
              (fun s => (match kp with [] => false | _ => true end) || is_op_name s search) v)
   | Some (MT Namespace) => (rk, if nss c then ns_value v else v)
   | Some (MT Exempt) => (rk, v)
